@@ -225,6 +225,7 @@ retry:
      * TODO When we extend reverse scan for multiple entries, we need get_prev() here.
      */
     border_node* next = bn->get_next();
+    YAKUSHIMA_VERIF_POINT(SCAN_NEXT_LOADED, bn);
 
     /**
      * get permutation at once.
@@ -428,6 +429,7 @@ retry:
     if (next != nullptr) { next_version = next->get_stable_version(); }
 
     // final check for atomicity
+    YAKUSHIMA_VERIF_POINT(SCAN_BEFORE_FINAL, bn);
     status check_status = scan_check_retry(bn, v_at_fb);
     if (check_status != status::OK) {
         // failed. clean up tuple list and node vesion vec.
